@@ -32,6 +32,11 @@ def main():
         if rc != 0:
             print(sid, "patch does not apply:", out[-300:]); continue
         results = {}
+        # the evidence files describe the UNCHANGED tree: keep them out of the seeded runs
+        saved = {}
+        for p in [prop] + extra:
+            ev = os.path.join(ROOT, "evidence", p + ".json")
+            saved[ev] = open(ev).read() if os.path.exists(ev) else None
         try:
             for p in [prop] + extra:
                 t0 = time.time()
@@ -42,6 +47,12 @@ def main():
                               "wall_s": round(time.time() - t0, 1)}
         finally:
             sh("git checkout -- .", cwd="/repo")
+            for ev, content in saved.items():
+                if content is None:
+                    if os.path.exists(ev):
+                        os.remove(ev)
+                else:
+                    open(ev, "w").write(content)
         caught = [p for p, r in results.items() if r["exit"] == 1 and r["violation_line"]]
         meta = {
             "id": sid,
